@@ -28,9 +28,8 @@ func (x *Exec) entryState() (*State, []V) {
 		st.mem[sp] = &MemVer{kind: mBase, term: sp + "0"}
 	}
 	for _, sp := range []string{"H", "B"} {
-		st.decl("brk"+sp+"0", sortBV(64))
-		st.assume(and(app("bvult", "brk"+sp+"0", bvLit(maxAddr, 64)), app("bvugt", "brk"+sp+"0", bvLit(0x10000, 64))))
-		st.brk[sp] = "brk" + sp + "0"
+		// everything the caller hands in lies below 2^47; fresh allocations are placed above
+		st.brk[sp] = bvLit(maxAddr, 64)
 	}
 	fn := x.fn
 	var args []V
@@ -90,6 +89,28 @@ func (x *Exec) analyze() (err error) {
 		}
 		st.assume(t)
 		x.noteAssumption(x.key + ": assumed " + a.Text)
+	}
+	isInit := x.fn.Name() == "init" || strings.HasPrefix(x.fn.Name(), "init#")
+	if isInit && x.fn.Pkg != nil {
+		// the initialiser is analysed for its first (and only effective) run
+		if g, ok := x.fn.Pkg.Members["init$guard"].(*ssa.Global); ok {
+			a := x.globalAddr(g)
+			st.assume(eq(app("select", "G0", a.T), bvLit(0, 8)))
+		}
+	}
+	if !isInit {
+		used := x.referencedGlobals()
+		for _, gc := range x.specs.Globals {
+			if g := x.lookupGlobal(gc.Name); g == nil || !used[g] {
+				continue
+			}
+			t, e := x.evalGlobalClause(st, gc, false)
+			if e != nil {
+				x.genFail(x.key+"#global."+gc.Name, "assume", con.Safety, "", e.Error())
+				continue
+			}
+			st.assume(t)
+		}
 	}
 	for _, g := range con.GhostDefs {
 		t, e := env.evalBool(g.Expr)
@@ -161,6 +182,20 @@ func (x *Exec) analyze() (err error) {
 		if con.Appends != nil {
 			x.proveAppends(o.st, env, con, o.results[0])
 		}
+		if isInit {
+			for _, gc := range x.specs.Globals {
+				if g := x.lookupGlobal(gc.Name); g == nil || g.Pkg != x.fn.Pkg {
+					continue
+				}
+				t, e := x.evalGlobalClause(o.st, gc, true)
+				name := x.key + "#global." + gc.Name
+				if e != nil {
+					x.genFail(name, "ensures", gc.Tags, x.posOf(x.fn.Pos()), e.Error())
+					continue
+				}
+				x.oblige(o.st, name, "ensures", gc.Tags, t, x.posOf(x.fn.Pos()), "package initialisation establishes: "+gc.Text)
+			}
+		}
 		if con.AssignsSet {
 			x.proveAssigns(o.st, env, con, args, entryMem)
 		}
@@ -210,21 +245,7 @@ func (x *Exec) proveAppends(st *State, env *CEnv, con *Contract, res V) {
 	x.oblige(st, base+".prefix", "appends", ap.Tags,
 		implies(app("bvult", j, dl), eq(st.load8(spaceOf(rp, "B"), bvadd(rp.T, j)), app("select", old.term, bvadd(dp.T, j)))), pos,
 		"result[j] == old("+ap.Param+")[j] for j < len(old("+ap.Param+"))")
-	if seq.Max > 0 && seq.Max <= 24 {
-		// statically bounded sequence: one conjunct per concrete position
-		cs := []string{app("bvule", seq.Len, bvLit(uint64(seq.Max), 64))}
-		for i := 0; i < seq.Max; i++ {
-			k := bvLit(uint64(i), 64)
-			cs = append(cs, implies(app("bvult", k, seq.Len), eq(st.load8(spaceOf(rp, "B"), bvadd(rp.T, bvadd(dl, k))), seq.Byte(k))))
-		}
-		x.oblige(st, base+".suffix", "appends", ap.Tags, and(cs...), pos,
-			"result[len(old("+ap.Param+"))+k] == ("+ap.Seq.String()+")[k] for every k")
-	} else {
-		k := st.freshConst("sk_suf", sortBV(64))
-		x.oblige(st, base+".suffix", "appends", ap.Tags,
-			implies(app("bvult", k, seq.Len), eq(st.load8(spaceOf(rp, "B"), bvadd(rp.T, bvadd(dl, k))), seq.Byte(k))), pos,
-			"result[len(old("+ap.Param+"))+k] == ("+ap.Seq.String()+")[k]")
-	}
+	x.proveSuffix(st, rp, seq, "true", dl, base+".suffix", ap, pos)
 	// the result is the caller's buffer or fresh memory, never memory reachable from the value
 	reg := "fresh"
 	if rp.Prov != nil {
@@ -280,7 +301,7 @@ func (x *Exec) proveAssigns(st *State, env *CEnv, con *Contract, args []V, entry
 
 func (x *Exec) entryBrk(sp string) (string, bool) {
 	if sp == "H" || sp == "B" {
-		return "brk" + sp + "0", true
+		return bvLit(maxAddr, 64), true
 	}
 	return "", false
 }
@@ -320,8 +341,8 @@ func (x *Exec) harvestClause(env *CEnv, e *CExpr) {
 					if v.K == KBV && v.W == 0 {
 						return
 					}
-					if v.K == KBV && v.W == 64 {
-						env.st.addPool(64, env.st.define("inst", sortBV(64), v.T))
+					if v.K == KBV && v.W > 0 {
+						env.st.addPool(v.W, env.st.define("inst", sortBV(v.W), v.T))
 					}
 				}()
 				if a.Op == "call" {
@@ -497,4 +518,94 @@ func (x *Exec) checkDelegates(d *DelegateSpec) (bool, string) {
 		}
 	}
 	return true, ""
+}
+
+// proveSuffix generates the obligations "seq occurs in the result at offset off" under guard,
+// splitting conditionals and concatenations so that every query stays small.
+func (x *Exec) proveSuffix(st *State, rp V, seq *Seq, guard, off, name string, ap *AppendSpec, pos string) {
+	switch {
+	case seq.Then != nil:
+		x.proveSuffix(st, rp, seq.Then, and(guard, seq.Cond), off, name+".then", ap, pos)
+		x.proveSuffix(st, rp, seq.Else, and(guard, not(seq.Cond)), off, name+".else", ap, pos)
+	case len(seq.Parts) > 1 && hasCondPart(seq):
+		// distribute the conditional over the concatenation so that every offset below is unconditional
+		for pi, part := range seq.Parts {
+			if part.Then == nil {
+				continue
+			}
+			mk := func(repl *Seq) *Seq {
+				ps := append([]*Seq(nil), seq.Parts[:pi]...)
+				if len(repl.Parts) > 0 {
+					ps = append(ps, repl.Parts...)
+				} else {
+					ps = append(ps, repl)
+				}
+				ps = append(ps, seq.Parts[pi+1:]...)
+				return &Seq{Parts: ps}
+			}
+			x.proveSuffix(st, rp, mk(part.Then), and(guard, part.Cond), off, name+".then", ap, pos)
+			x.proveSuffix(st, rp, mk(part.Else), and(guard, not(part.Cond)), off, name+".else", ap, pos)
+			break
+		}
+	case len(seq.Parts) > 1:
+		cur := off
+		for pi, part := range seq.Parts {
+			poff := st.define("poff", sortBV(64), cur)
+			x.proveSuffix(st, rp, part, guard, poff, fmt.Sprintf("%s.part%d", name, pi+1), ap, pos)
+			cur = bvadd(poff, part.Len)
+		}
+	case seq.Max > 0 && seq.Max <= 24:
+		st = st.fork() // the memory facts instantiated for this obligation stay out of the other queries
+		cs := []string{app("bvule", seq.Len, bvLit(uint64(seq.Max), 64))}
+		for i := 0; i < seq.Max; i++ {
+			k := bvLit(uint64(i), 64)
+			cs = append(cs, implies(app("bvult", k, seq.Len), eq(st.load8(spaceOf(rp, "B"), bvadd(rp.T, bvadd(off, k))), seq.Byte(k))))
+		}
+		x.oblige(st, name, "appends", ap.Tags, implies(guard, and(cs...)), pos, "this part of ("+ap.Seq.String()+") appears at its offset in result")
+	default:
+		st = st.fork()
+		k := st.freshConst("sk_suf", sortBV(64))
+		x.oblige(st, name, "appends", ap.Tags,
+			implies(and(guard, app("bvult", k, seq.Len)), eq(st.load8(spaceOf(rp, "B"), bvadd(rp.T, bvadd(off, k))), seq.Byte(k))), pos,
+			"this part of ("+ap.Seq.String()+") appears at its offset in result")
+	}
+}
+
+func hasCondPart(s *Seq) bool {
+	for _, p := range s.Parts {
+		if p.Then != nil {
+			return true
+		}
+	}
+	return false
+}
+
+// referencedGlobals lists the package-level variables the function, or any
+// in-repo function reachable from it through static calls, refers to.
+func (x *Exec) referencedGlobals() map[*ssa.Global]bool {
+	out := map[*ssa.Global]bool{}
+	seen := map[*ssa.Function]bool{}
+	var walk func(fn *ssa.Function, depth int)
+	walk = func(fn *ssa.Function, depth int) {
+		if seen[fn] || len(fn.Blocks) == 0 || depth > 6 {
+			return
+		}
+		seen[fn] = true
+		for _, b := range fn.Blocks {
+			for _, in := range b.Instrs {
+				for _, op := range in.Operands(nil) {
+					if g, ok := (*op).(*ssa.Global); ok {
+						out[g] = true
+					}
+				}
+				if c, ok := in.(ssa.CallInstruction); ok {
+					if callee := c.Common().StaticCallee(); callee != nil && callee.Pkg != nil && strings.HasPrefix(callee.Pkg.Pkg.Path(), modPrefix) {
+						walk(callee, depth+1)
+					}
+				}
+			}
+		}
+	}
+	walk(x.fn, 0)
+	return out
 }
